@@ -10,6 +10,7 @@ Class names (first component of the configuration name, so that a known-findings
     kneg    ... with negative constants                                    (candidate f lives here)
     ksig    ... with explicitly signed non-negative constants             (candidate f)
     slop    a slice of an input as operand of arithmetic / comparison     (candidate g when the input is signed)
+    catsig  Cat / Replicate / partial slices over signals only            (expected clean)
     catrep  Cat / Replicate / slices of expressions on the right
     lhs     slices / Cat on the left
     constblk comb targets assigned only constants through slices/If/Case  (candidate bb)
@@ -167,14 +168,29 @@ def cls_slop(ic, tier):
     return comb_frags(ex, tier)
 
 
+def cls_catsig(ic, tier):
+    """Cat / Replicate / partial slices whose members are signals, constants and slices only (no operator inside a
+    concatenation, no full-width slice): expected to be free of every known printer defect"""
+    wa, sa, wb, sb = ic
+    s2 = SL(A, 0, 2) if wa >= 3 else BIT(A, 0)
+    ex = [CAT(A, B), CAT(B, A, Cc), OP("+", CAT(A, B), Cc), OP("<", CAT(A, BIT(B, 0)), Cc), OP("-", CAT(A, B)), OP("~", CAT(A, B)),
+          REP(s2, 2), REP(A, 2), REP(B, 3), OP("+", REP(A, 2), Cc), REP(CAT(A, BIT(B, 0)), 2), CAT(A, K(1, (2, False)), B),
+          CAT(K(3), A), CAT(REP(BIT(A, 0), 2), B), SL(CAT(A, B), 1, wa + wb - 1) if wa + wb > 2 else BIT(CAT(A, B), 1),
+          SL(CAT(A, B), max(wa - 1, 0), wa + 1), BIT(CAT(A, B), wa), SL(REP(A, 2), 1, wa + 1) if wa > 1 else BIT(REP(A, 2), 1),
+          s2, BIT(A, wa - 1), BIT(B, 0), OP("==", REP(BIT(A, 0), 3), CAT(Cc, K(0, (1, False)))), OP("m", C0, CAT(A, B), REP(Cc, 2)),
+          OP(">>>", CAT(A, B), K(1)), OP("<<<", CAT(A, B), Cc), OP("&", CAT(A, B), REP(Cc, 3))]
+    if wa >= 3:
+        ex += [SL(SL(A, 1, 3), 0, 1), BIT(SL(A, 0, 2), 1), SL(SL(CAT(A, B), 1, 5), 1, 3)]
+    return comb_frags(ex, tier)
+
+
 def cls_catrep(ic, tier):
     wa, sa, wb, sb = ic
     s2 = SL(A, 0, 2) if wa >= 2 else BIT(A, 0)
-    ex = [CAT(A, B), OP("+", CAT(A, B), B), OP("+", CAT(A, BIT(B, 0)), B), OP("<", CAT(A, B), B), OP("-", CAT(A, B)),
-          REP(s2, 2), REP(A, 2), OP("+", REP(A, 2), B), REP(B, 3), REP(CAT(A, BIT(B, 0)), 2), CAT(A, K(1, (2, True)), B),
+    ex = [OP("+", CAT(A, B), B), OP("+", CAT(A, BIT(B, 0)), B), OP("<", CAT(A, B), B),
+          OP("+", REP(A, 2), B), CAT(A, K(1, (2, True)), B),
           CAT(OP("+", A, B), A), CAT(OP("-", A), B), CAT(OP("<", A, B), OP("~", A)), CAT(K(-1), A),
-          SL(OP("+", A, B), 1, 3), BIT(OP("+", A, B), 0), BIT(OP("+", A, B), max(wa, wb)), SL(CAT(A, B), 1, wa + wb - 1),
-          SL(CAT(A, B), max(wa - 1, 0), wa + 1), BIT(CAT(A, B), wa), SL(REP(A, 2), 1, wa + 1) if wa > 1 else BIT(REP(A, 2), 1),
+          SL(OP("+", A, B), 1, 3), BIT(OP("+", A, B), 0), BIT(OP("+", A, B), max(wa, wb)),
           SL(OP("*", A, B), 1, 3), SL(OP("-", A), 0, 2), SL(OP("~", A), 0, wa), BIT(OP("<", A, B), 0),
           SL(OP("m", C0, A, B), 0, 1), SL(OP(">>>", A, K(1)), 0, wa), SL(OP("-", A, B), 0, 2), BIT(OP("-", A, B), max(wa, wb)),
           SL(CAT(OP("+", A, B), A), 1, 4), REP(BIT(A, 0), 3), OP("==", REP(BIT(A, 0), 3), CAT(B, K(0, (1, False))))]
@@ -297,7 +313,7 @@ def cls_ctl(ic, tier):
     wa, sa, wb, sb = ic
     E1 = [A, OP("+", A, B), K(-3), OP("-", B)]
     fr = []
-    tg = [(5, False), (5, True), (8, True)] if tier == "thorough" else [(5, True), (8, False)]
+    tg = [(5, False), (5, True), (8, False), (8, True)] if tier == "thorough" else [(5, True), (8, False)]
     for t in tg:
         for x in E1:
             def f1(m, env, x=x, t=t):
@@ -365,7 +381,7 @@ def cls_ctl(ic, tier):
 
 
 COMB_CLASSES = {"arith": cls_arith, "kpos": cls_kpos, "kneg": cls_kneg, "ksig": cls_ksig, "slop": cls_slop,
-                "catrep": cls_catrep, "d2": cls_d2, "lhs": cls_lhs, "constblk": cls_constblk, "ctl": cls_ctl}
+                "catsig": cls_catsig, "catrep": cls_catrep, "d2": cls_d2, "lhs": cls_lhs, "constblk": cls_constblk, "ctl": cls_ctl}
 
 
 class CombProg(Module):
@@ -380,11 +396,15 @@ class CombProg(Module):
         self.frag_obs = []       # (fragment label, [target signals])
         env = dict(a=self.a, b=self.b, c=self.c)
         self.skipped = []
+        self.frag_stmts = []     # per fragment: its comb statements (fragments are independent of each other)
         for lab, build in frags:
+            n0 = len(self._fragment.comb)
             try:
                 self.frag_obs.append((lab, build(self, env)))
+                self.frag_stmts.append(list(self._fragment.comb[n0:]))
             except IndexError:       # slice / bit index outside a narrow operand: the shape does not exist for this icfg
                 self.skipped.append(lab)
+                assert len(self._fragment.comb) == n0
         self.outs_io = outs_io
 
     def new_target(self, t, reset=0):
@@ -403,10 +423,20 @@ class CombProg(Module):
                     memories=[])
 
 
-def comb_program(cls, ic, tier, outs_io, only=None):
+CHUNK = 300
+
+
+def comb_chunks(cls, ic, tier):
+    n = len(COMB_CLASSES[cls](ic, tier))
+    return max(1, -(-n // CHUNK))
+
+
+def comb_program(cls, ic, tier, outs_io, only=None, chunk=None):
     frags = COMB_CLASSES[cls](ic, tier)
     if only is not None:
         frags = [f for f in frags if f[0] == only]
+    elif chunk is not None:
+        frags = frags[chunk * CHUNK:(chunk + 1) * CHUNK]
 
     def mk():
         m = CombProg(ic, frags, outs_io)
